@@ -765,6 +765,8 @@ func (c *SpecCtx) call(x *SCall) Val {
 			bk = types.Uint8
 		}
 		return ival(e.wrap(types.Typ[bk], c.evalInt(x.Args[0])))
+	case "dynalloc":
+		return ival(s.heapTerm("gh:$dynalloc", "Int"))
 	case "unix":
 		e.needTime()
 		return ival("(time_unix " + arg(0).T + ")")
